@@ -258,3 +258,42 @@ def desugar_enumerate(text, log, where):
     new = re.sub(r'(?m)^([ \t]*)for \((\w+), (\w+)\) in (\w+)\.iter\(\)\.enumerate\(\) \{$', rep, text)
     if n[0]: log.add('R22', where, '%d `for (i, x) in v.iter().enumerate()`' % n[0], 'for i in 0..v.len() { let x = &v[i]; .. }')
     return new
+
+def desugar_iter_mut(text, log, where):
+    """R24: loops over `iter_mut()` (no spec in vstd) become index loops over the same vector, element by element, in order:
+         `for X in E.iter_mut() {`                                   =>  `let vx_vK = &mut E; for vx_kK in 0..vx_vK.len() { let X = &mut vx_vK[vx_kK];`
+         `E.iter_mut().for_each(|X| { B });`                          =>  `let vx_vK = E; for vx_kK in 0..vx_vK.len() { let X = &mut vx_vK[vx_kK]; B }`
+         `E.iter_mut().filter(|P| C).for_each(|X| { B });`            =>  the same with `if { let P = &*X; C } { B }` as the loop body
+       (`E` a place expression gets `&mut`, a call returning `&mut Vec<_>` is bound as it is).  Any other adapter is left alone (Verus rejects it: UNDECIDED)."""
+    n = [0]
+    def bind(e):
+        e = re.sub(r'\s+', '', e) if '\n' in e else e.strip()
+        return e if e.endswith(')') else '&mut ' + e
+    def rep_for(m):
+        n[0] += 1; k = n[0]; ind = m.group(1)
+        return '%slet vx_v%d = %s;\n%sfor vx_k%d in 0..vx_v%d.len() {\n%s    let %s = &mut vx_v%d[vx_k%d];' % (ind, k, bind(m.group(3)), ind, k, k, ind, m.group(2), k, k)
+    text = re.sub(r'(?m)^([ \t]*)for (\w+) in (.+?)\.iter_mut\(\) \{$', rep_for, text)
+    while True:
+        m = re.search(r'(?m)^([ \t]*)([\w.()\s]+?)\s*\.iter_mut\(\)\s*(?:\.filter\(\|(\w+)\| )?', text)
+        if not m: break
+        ind, e, p = m.group(1), m.group(2), m.group(3)
+        j = m.end()
+        cond = None
+        if p:
+            pc = L.match_close(text, text.rfind('(', 0, m.end() - len('|%s| ' % p)))
+            cond = text[m.end():pc].strip()
+            j = pc + 1
+        mm = re.match(r'\s*\.for_each\(\|(\w+)\| ', text[j:])
+        if not mm: break
+        po = j + text[j:].index('(')
+        pc = L.match_close(text, po)
+        body = text[j + mm.end():pc].strip()
+        if not (body.startswith('{') and body.endswith('}')): body = '{ ' + body + '; }'
+        tail = text[pc + 1:]
+        if not tail.startswith(';'): break
+        n[0] += 1; k = n[0]; x = mm.group(1)
+        inner = body if cond is None else '{ if { let %s = &*%s; %s } %s }' % (p, x, cond, body)
+        new = '%slet vx_v%d = %s;\n%sfor vx_k%d in 0..vx_v%d.len() {\n%s    let %s = &mut vx_v%d[vx_k%d];\n%s    %s\n%s}' % (ind, k, bind(e), ind, k, k, ind, x, k, k, ind, inner, ind)
+        text = text[:m.start()] + new + tail[1:]
+    if n[0]: log.add('R24', where, '%d loop(s) over iter_mut()' % n[0], 'let v = E; for k in 0..v.len() { let x = &mut v[k]; .. }')
+    return text
